@@ -357,11 +357,15 @@ DeepEmbeddings == {FrameName(s) : s \in LintFrameSeqs}
 TypedWhenSingle(p) == \/ p.path \in {<<"jobs", J, "runs-on">>, <<"jobs", J, "runs-on", "labels">>}
                       \/ p.var = "local-declared"      \* the declared input is typed string by the callee
 AllEmbeddings == {"wrap", "upper", "and", "or", "arg", "index", "not", "cmp", "deep", "lower", "mixed",
-                  "text", "second", "direct", "ternary", "nand"}
+                  "text", "second", "direct", "ternary", "nand", "bracket"}
+\* "bracket": ctx['known-property'] - the literal-index spelling of a property access; only for the built-in
+\* contexts whose object type is strict and has the same properties at every position
+BracketContexts == {"github", "runner", "job", "strategy"}
 EmbOK(p, n, e) ==
   /\ e \in Embeddings \/ (e \in DeepEmbeddings /\ p.form \in DeepForms)
   /\ e \in {"text", "second"} => p.form = "tmpl"
   /\ e = "nand" => p.form # "cond"        \* a bare `if: !(...)` would be a YAML tag
+  /\ e = "bracket" => n \in BracketContexts
   /\ e = "direct" => n \in SpecialFns /\ p.form \in {"tmpl", "cond"} /\ ~TypedWhenSingle(p)
 
 AbsentKeys ==
